@@ -324,3 +324,25 @@ def trace_back(f, local, depth=0):
         r = trace_back(f, rv[1][1][0], depth + 1)
         return r if r is not None else d[0]
     return d[0]
+
+
+def only_called_from(fx, fn, allowed):
+    """True iff `fn` has callers and every upward call path from it reaches a function of `allowed`
+    before reaching a root: a helper extracted from a designated function inherits its licence."""
+    _, callers = fx.callgraph()
+    seen = set()
+    work = [fn]
+    first = True
+    while work:
+        x = work.pop()
+        if x in seen:
+            continue
+        seen.add(x)
+        if not first and x in allowed:
+            continue
+        cs = [c for c in callers.get(x, ()) if c != x]
+        if not cs:
+            return False  # a root (public entry, native reached through a pointer) not in the table
+        first = False
+        work.extend(cs)
+    return True
